@@ -203,8 +203,17 @@ func genRegistry(w *World) string {
 			key := strings.ReplaceAll(n+"["+strings.Join(cb, ",")+"]", "*ZzObj", "*ZzObj")
 			fmt.Fprintf(&sb, "\t%q: codec.%s[%s],\n", key, n, inst)
 		}
+		// the named prefix type (see the overlay): a few writers only
+		switch {
+		case (n == "WriteString" || n == "WriteStringLE") && tps.Len() == 1:
+			fmt.Fprintf(&sb, "\t%q: codec.%s[ZzU8],\n", n+"[ZzU8]", n)
+		case (n == "WriteBasicTypeList" || n == "WriteBasicTypeListLE") && tps.Len() == 2:
+			fmt.Fprintf(&sb, "\t%q: codec.%s[ZzU8, uint16],\n", n+"[ZzU8,uint16]", n)
+		case (n == "WriteObjectList" || n == "WriteObjectListLE") && tps.Len() == 2:
+			fmt.Fprintf(&sb, "\t%q: codec.%s[ZzU8, *ZzObj],\n", n+"[ZzU8,*ZzObj]", n)
+		}
 	}
-	sb.WriteString("}\n")
+	sb.WriteString("}\n\ntype ZzU8 uint8\n")
 	return sb.String()
 }
 
